@@ -827,6 +827,21 @@ theorem C08_region_off_band (t : TagDesc) (nrefs refidx : Nat) (ref : Arr) (stop
       (e = .outOfBounds ∧ BeyondAxis stop ref.dims ref.shape t.position t.extent scs) :=
   C08_region t nrefs refidx ref stop scs hrank (axesOK_of_offBand hok) href hext
 
+/-- **Region theorem off the band (MultiTag)**: `C08_region_multi` under `AxesOffBand`. -/
+theorem C08_region_multi_off_band (t : MTagDesc) (nrefs idx refidx : Nat) (ref : Arr) (stop : SliceMode)
+    (position extent scs : List Rat) (hrow : MRow t idx position extent)
+    (hrank : ref.dims.length = ref.shape.length)
+    (hok : AxesOffBand stop ref.dims position extent (unitsOpt t.units) scs) (href : refidx < nrefs) :
+    match MultiTag.taggedData t nrefs idx refidx ref stop with
+    | .ok v =>
+      (v.valid = true ∧ v.parent = ref.shape ∧ WindowsIn v.window ref.shape ∧
+        WindowsExact stop ref.dims ref.shape position extent scs v.window ∧
+        viewRead v none = .ok (.sel (windowSel v.window))) ∨
+      (v.valid = false ∧ (EmptyAxis stop ref.dims position extent scs ∨
+          BeyondAxis stop ref.dims ref.shape position extent scs) ∧ ∀ ix, viewRead v ix = .ok .empty)
+    | .error e => e = .indexError ∧ EmptyAxis stop ref.dims position extent scs :=
+  C08_region_multi t nrefs idx refidx ref stop position extent scs hrow hrank (axesOK_of_offBand hok) href
+
 /-- **Regions between samples and regions on samples.** A region whose two end points are sample coordinates of the
 descriptor (indices `≤ 10¹¹`: e.g. position = `position_at ka`, extent = the distance to `position_at kb`, in the
 dimension's unit) always meets the hypotheses, whatever the offset and the interval. -/
